@@ -213,7 +213,7 @@ def run_history(world, events, on_job=None, on_event=None, fault_for=None):
             log.append({'ev': ev, 'status': rec['status']})
             if on_job:
                 on_job(world, ev, before, rec, after)
-            for extra in world.drain():
+            for extra in world.drain_iter():
                 after2 = world.dump()
                 if on_job:
                     on_job(world, {'e': 'drained', 'job': extra['job']}, after, extra, after2)
